@@ -26,8 +26,28 @@ pub fn gen(r: &mut Rng, thorough: bool, count: Option<usize>) -> Vec<Value> {
             "iters": 4 + r.below(if thorough { 30 } else { 10 }), "keys": 1 + r.below(4), "busy_ms": *r.pick(&[50u64, 500, 3000]),
             "seed": r.next() % 1_000_000}));
     }
+    // a workload aimed at the shared profile-key cache (the KeyCache RwLock the property is anchored in): half of the tasks
+    // create and remove one or two profile names in a tight loop while the others keep opening sessions on them, so that
+    // cache misses (SELECT + key unwrap on the blocking pool + cache insert) overlap with removals (DELETE + cache evict)
+    for j in 0..(n / 6).max(1) {
+        out.push(json!({"id": n + j, "kind": "c10", "workload": "profrace", "file": r.chance(1, 2),
+            "pool": *r.pick(&[2u64, 4, 8]), "tasks": 4 + r.below(if thorough { 9 } else { 5 }), "readers": 0,
+            "iters": 25 + r.below(if thorough { 60 } else { 25 }), "keys": 1 + r.below(2), "busy_ms": *r.pick(&[500u64, 3000]),
+            "seed": r.next() % 1_000_000}));
+    }
+    // failed profile calls under contention: one task keeps the write lock for longer than the busy timeout while the others
+    // create and remove uniquely named profiles; a call that reports an error must have had no effect
+    for j in 0..(n / 8).max(1) {
+        out.push(json!({"id": n + n / 6 + 1 + j, "kind": "c10", "workload": "proffail", "file": true,
+            "pool": *r.pick(&[2u64, 4, 8]), "tasks": 3 + r.below(if thorough { 6 } else { 4 }), "readers": 0,
+            "iters": 6 + r.below(if thorough { 14 } else { 8 }), "keys": 1, "busy_ms": *r.pick(&[20u64, 50]),
+            "seed": r.next() % 1_000_000}));
+    }
     out
 }
+
+/// one cooperative yield (the workers run on their own OS threads; this only varies the timing a little)
+async fn futures_yield() { std::thread::yield_now(); }
 
 #[derive(Clone, Debug)]
 struct TxnRec { reads: Vec<(String, i64)>, writes: Vec<(String, i64)>, cseq: u64 }
@@ -142,10 +162,18 @@ pub fn exec(case: &Value, tag: &str) -> Value {
         s.close(false).await.ok();
     });
     let token_ok: Arc<Mutex<BTreeMap<String, u64>>> = Arc::new(Mutex::new(BTreeMap::new()));
+    // profrace: creator c is currently working on the name q{c}_{cur[c]}; creators_left counts the creators still running
+    let case_busy = case["busy_ms"].as_u64().unwrap_or(500);
+    let ncreators = if workload == "proffail" { tasks } else { (tasks / 2).max(1) };
+    let race_cur: Arc<Vec<AtomicU64>> = Arc::new((0..ncreators).map(|_| AtomicU64::new(0)).collect());
+    let creators_left = Arc::new(AtomicU64::new(ncreators as u64));
+    // proffail: (name, create ok?, remove result: None = not attempted, Some(ok?))
+    let prof_log: Arc<Mutex<Vec<(String, bool, Option<bool>)>>> = Arc::new(Mutex::new(vec![]));
     let (done_tx, done_rx) = std::sync::mpsc::channel::<()>();
     let total_threads = tasks + readers;
     for t in 0..total_threads {
         let (backend, sh, keys, workload, done_tx, token_ok) = (backend.clone(), sh.clone(), keys.clone(), workload.clone(), done_tx.clone(), token_ok.clone());
+        let (race_cur, creators_left, prof_log) = (race_cur.clone(), creators_left.clone(), prof_log.clone());
         let seed = case["seed"].as_u64().unwrap_or(1) * 1000 + t as u64;
         std::thread::spawn(move || {
             let res = std::panic::catch_unwind(std::panic::AssertUnwindSafe(|| {
@@ -154,6 +182,61 @@ pub fn exec(case: &Value, tag: &str) -> Value {
                     if t >= tasks {
                         // reader
                         for i in 0..(iters * 2) { snapshot(&backend, &sh, i % 2 == 1).await; }
+                        return;
+                    }
+                    if workload == "proffail" {
+                        if t == 0 {
+                            // the lock holder: write transactions that stay open for longer than the others' busy timeout
+                            let hold = std::time::Duration::from_millis(case_busy * 3 + 20);
+                            while creators_left.load(Ordering::SeqCst) > 1 {
+                                if let Ok(mut s) = backend.session(None, true) {
+                                    if s.update(EntryKind::Item, EntryOperation::Replace, "lock", "l", Some(b"v"), None, None).await.is_ok() { std::thread::sleep(hold); }
+                                    s.close(true).await.ok();
+                                }
+                                std::thread::sleep(std::time::Duration::from_millis(r.below(6) as u64));
+                            }
+                        } else {
+                            for i in 0..iters {
+                                let p = format!("f{}_{}", t, i);
+                                let c_ok = backend.create_profile(Some(p.clone())).await.is_ok();
+                                sh.bump(if c_ok { "proffail-create-ok" } else { "proffail-create-err" });
+                                let mut rm = None;
+                                if c_ok && r.chance(2, 3) {
+                                    let ok = matches!(backend.remove_profile(p.clone()).await, Ok(true));
+                                    sh.bump(if ok { "proffail-remove-ok" } else { "proffail-remove-err" });
+                                    rm = Some(ok);
+                                }
+                                prof_log.lock().unwrap().push((p, c_ok, rm));
+                                sh.bump("profile-op");
+                            }
+                            creators_left.fetch_sub(1, Ordering::SeqCst);
+                        }
+                        return;
+                    }
+                    if workload == "profrace" {
+                        // every name is created once and removed once by one creator, so a cache entry that survives the
+                        // removal is never cleaned up by a later removal and is still there at the quiescent check
+                        if t < ncreators {
+                            for i in 0..iters {
+                                let p = format!("q{}_{}", t, i);
+                                race_cur[t].store(i as u64, Ordering::SeqCst);
+                                if backend.create_profile(Some(p.clone())).await.is_ok() { sh.bump("profrace-created"); }
+                                for _ in 0..r.below(4) { std::thread::yield_now(); }
+                                if let Ok(true) = backend.remove_profile(p).await { sh.bump("profrace-removed"); }
+                                sh.bump("profile-op");
+                            }
+                            creators_left.fetch_sub(1, Ordering::SeqCst);
+                        } else {
+                            while creators_left.load(Ordering::SeqCst) > 0 {
+                                let c = r.below(ncreators);
+                                let p = format!("q{}_{}", c, race_cur[c].load(Ordering::SeqCst));
+                                if let Ok(mut s) = backend.session(Some(p), false) {
+                                    match s.count(None, None, None).await { Ok(_) => sh.bump("profrace-opened"), Err(_) => sh.bump("profrace-notfound") }
+                                    s.close(false).await.ok();
+                                }
+                                sh.bump("profile-op");
+                            }
+                        }
                         return;
                     }
                     for i in 0..iters {
@@ -226,6 +309,41 @@ pub fn exec(case: &Value, tag: &str) -> Value {
             tokens_present = rows.iter().map(|e| e.name.clone()).collect();
         }
         s.close(false).await.ok();
+        if workload == "proffail" {
+            // quiescent (plus a grace period for anything still in flight on the connection workers): a create that reported
+            // an error left no profile, a remove that reported an error left the profile in place and usable
+            std::thread::sleep(std::time::Duration::from_millis(150));
+            let names = backend.list_profiles().await.unwrap_or_default();
+            for (p, c_ok, rm) in prof_log.lock().unwrap().iter() {
+                let listed = names.iter().any(|n| n == p);
+                let opened = match backend.session(Some(p.clone()), false) {
+                    Ok(mut s) => { let r = s.count(None, None, None).await; s.close(false).await.ok(); r.is_ok() }
+                    Err(_) => false,
+                };
+                let expect = *c_ok && *rm != Some(true);
+                if listed != expect {
+                    let what = if !*c_ok { "create_profile:err-but-applied" } else if *rm == Some(false) { "remove_profile:err-but-applied" } else { "remove_profile:ok-but-still-listed" };
+                    sh.fail(json!({"sig": format!("contention:{}", what), "profile": p})); break;
+                }
+                if listed != opened { sh.fail(json!({"sig": format!("profiles:listed={}:opens={}", listed, opened), "profile": p})); break; }
+            }
+        }
+        if workload == "profrace" {
+            // quiescent: every q-name has been removed by its creator, so none is listed and none may open
+            let names = backend.list_profiles().await.unwrap_or_default();
+            for c in 0..ncreators { for i in 0..iters {
+                let p = format!("q{}_{}", c, i);
+                let listed = names.iter().any(|n| *n == p);
+                let opened = match backend.session(Some(p.clone()), false) {
+                    Ok(mut s) => { let r = s.count(None, None, None).await; s.close(false).await.ok(); r.is_ok() }
+                    Err(_) => false,
+                };
+                if listed != opened {
+                    sh.fail(json!({"sig": format!("profiles:listed={}:opens={}", listed, opened), "profile": p}));
+                    break;
+                }
+            } }
+        }
         if workload == "profiles" {
             // quiescent state: a profile can be opened iff it is listed (a removed profile can no longer be opened,
             // whatever interleaving of create / remove / use happened before), and a listed profile is usable
@@ -253,7 +371,7 @@ pub fn exec(case: &Value, tag: &str) -> Value {
     // ---- the harness's own verdicts (independent of the Lean checker)
     let mut state: BTreeMap<String, i64> = keys.iter().map(|k| (k.clone(), init_val)).collect();
     state.insert("ver".to_string(), 0);
-    if workload == "tokens" || workload == "profiles" { state.clear(); }
+    if workload == "tokens" || workload.starts_with("prof") { state.clear(); }
     let init_pairs: Vec<(String, i64)> = state.iter().map(|(k, v)| (k.clone(), *v)).collect();
     let mut serial_ok = true;
     let mut prefix_states = vec![state.clone()];
